@@ -144,7 +144,8 @@ impl Parser {
                                 break;
                             }
 
-                            if let Ok(Some(field)) = self.parse_expr() {
+                            // an error leaves the cursor where it was: give up instead of retrying forever
+                            if let Some(field) = self.parse_expr()? {
                                 fields.push(field);
                             }
                         }
@@ -152,7 +153,7 @@ impl Parser {
                 }
                 Some(Lexem::Open) | Some(Lexem::CurlyOpen) => {
                     self.drop_lexem();
-                    if let Ok(Some(field)) = self.parse_expr() {
+                    if let Some(field) = self.parse_expr()? {
                         fields.push(field);
                     }
                 }
